@@ -37,7 +37,9 @@ type CachedLoader struct {
 }
 
 func (l *CachedLoader) Load(uri, parentURI string) (*Schema, error) {
-	if schema, ok := l.cache[uri]; ok {
+	key := cacheKey(uri, parentURI)
+
+	if schema, ok := l.cache[key]; ok {
 		return schema, nil
 	}
 
@@ -46,9 +48,25 @@ func (l *CachedLoader) Load(uri, parentURI string) (*Schema, error) {
 		return nil, errors.Join(ErrCannotLoadSchema, err)
 	}
 
-	l.cache[uri] = schema
+	l.cache[key] = schema
 
 	return schema, nil
+}
+
+// cacheKey returns the key under which a loaded schema is cached: a relative file reference
+// names a different file in each directory, so it is keyed by its location relative to the
+// referring file.
+func cacheKey(uri, parentURI string) string {
+	if r, err := GetRefType(uri); err != nil || r != RefTypeFile {
+		return uri
+	}
+
+	fileName := strings.TrimPrefix(uri, "file://")
+	if filepath.IsAbs(fileName) {
+		return fileName
+	}
+
+	return filepath.Join(filepath.Dir(parentURI), fileName)
 }
 
 func NewFileLoader(resolveExtensions, yamlExtensions []string) *FileLoader {
